@@ -628,7 +628,7 @@ namespace adept {
 	// empty array
 	total.clear();
       }
-      else if (reduce_dim >= E::rank) {
+      else if (reduce_dim < 0 || reduce_dim >= E::rank) {
 	std::stringstream s;
 	s << "In " << f.name() << "(Expression<rank="
 	  << E::rank << ">,dim=" << reduce_dim 
@@ -814,7 +814,7 @@ namespace adept {
 	// empty array
 	result.clear();
       }
-      else if (reduce_dim >= E::rank) {
+      else if (reduce_dim < 0 || reduce_dim >= E::rank) {
 	std::stringstream s;
 	s << "In " << f.name() << "(Expression<rank="
 	  << E::rank << ">,dim=" << reduce_dim 
